@@ -180,3 +180,29 @@ class Check:
 def machinery_failure(msg):
     sys.stderr.write("MACHINERY FAILURE: %s\n" % msg)
     sys.exit(2)
+
+
+class Hang(BaseException):
+    """the code under test did not return within the watchdog budget"""
+
+
+class watchdog:
+    """with watchdog(seconds): ...   raises Hang inside the block if it runs longer (SIGALRM based; main thread only)"""
+
+    def __init__(self, seconds):
+        self.seconds = seconds
+
+    def _fire(self, signum, frame):
+        raise Hang("no return after %.1fs" % self.seconds)
+
+    def __enter__(self):
+        import signal
+        self.old = signal.signal(signal.SIGALRM, self._fire)
+        signal.setitimer(signal.ITIMER_REAL, self.seconds)
+        return self
+
+    def __exit__(self, *a):
+        import signal
+        signal.setitimer(signal.ITIMER_REAL, 0)
+        signal.signal(signal.SIGALRM, self.old)
+        return False
